@@ -1,7 +1,7 @@
 import RaftProofs.ClusterCommit2B
 
 /-!
-Cluster-level commit safety, part 2C: the nodes of a history under `Hyp2` (`node_ok`), holding an
+Cluster-level commit safety, part 2C: the nodes of a history under `Hyp2w` (`node_ok`), holding an
 entry (`Has`), equality of two logs below a common entry (`eq_below`), and **what one step does to the
 log of one node** (`node_step`).
 -/
@@ -11,7 +11,7 @@ open Node Raft Raft.CC RaftProps.C02 RaftProps.C05
 
 variable {cfg : JointConfig} {c0 : Nat} {h : List Sys}
 
-/-- the shape of every node of a history under `Hyp2` -/
+/-- the shape of every node of a history under `Hyp2w` -/
 structure NodeOk (c0 i : Nat) (st : NState) : Prop where
   inv : st.raft.raftLog.Inv
   snap : st.raft.raftLog.unstable.snapshot = none
@@ -20,7 +20,7 @@ structure NodeOk (c0 i : Nat) (st : NState) : Prop where
   id : st.raft.id = i
   nb : st.raft.batchAppend = false
 
-theorem node_ok (H : Hyp2 cfg c0 h) {n : Nat} {s : Sys} (hn : h[n]? = some s) {i : Nat}
+theorem node_ok (H : Hyp2w cfg c0 h) {n : Nat} {s : Sys} (hn : h[n]? = some s) {i : Nat}
     {st : NState} (hi : s.node i = some st) : NodeOk c0 i st := by
   obtain ⟨s0, _, hall⟩ := H.inv_at
   have hm := mem_of_get hn
@@ -66,7 +66,7 @@ inductive NodeStep (a : Sys) (v : Nat) (sta stb : NState) : Prop
       (hs : stb.raft.state = .follower)
       (ht : stb.raft.term = sta.raft.raftLog.store.hardState.term)
 
-theorem node_step (H : Hyp2 cfg c0 h) {n : Nat} {a b : Sys} (ha : h[n]? = some a)
+theorem node_step (H : Hyp2w cfg c0 h) {n : Nat} {a b : Sys} (ha : h[n]? = some a)
     (hb : h[n + 1]? = some b) {v : Nat} {sta stb : NState} (hva : a.node v = some sta)
     (hvb : b.node v = some stb) : NodeStep a v sta stb := by
   obtain ⟨s0, _, hall⟩ := H.inv_at
